@@ -127,6 +127,8 @@ def _reader_job(args):
     pre = SL.rx(g.nondecimal_pre_re.pattern)
     out["tb8_full_not_triggered"] = _w(full - SL.concat(pre, SL.EVERYTHING), 2)
     out["tb8_trigger_not_completable"] = _w(pre - SL.prefix_closure(full), 2)
+    from . import lexlang
+    out["lex1"] = lexlang.check(repo, gcls, dcls)
     out["visited"] = sorted(set(rd.ctx.visited))
     return out
 
@@ -328,3 +330,23 @@ def rule_o1(repo, res, an):
                 res.add(Finding("O1", f"grammar.{gcls}", f"reserved character {ch!r}",
                                 f"{ch!r} is reserved by OmniGrammar, unreserved in {gcls}, and can occur in a string "
                                 f"{enc} writes without quotes: the default loader splits that string"))
+
+
+def rule_lex1(repo, res, an, kinds=("decimal number", "based integer", "date/time")):
+    """LEX1: the lexer never ends a lexeme inside a single value (see vsa.lexlang)."""
+    for r in an["readers"]:
+        cfg = f"{r['decoder']}/{r['grammar']}"
+        lx = r["lex1"]
+        res.samples.append({"LEX1": cfg, "atoms_of_the_lexer_decision": lx["atoms"], "continue_dfa_states": lx["continue_states"],
+                            "yield_dfa_states": lx["yield_states"], "token_default_decoder": lx["default_token_decoder"]})
+        for kind in kinds:
+            cl = [c for c in lx["classes"] if c["kind"] == kind]
+            res.oblige("LEX1", f"{cfg}: every {kind} the decoder accepts is lexed as one token", ok=not cl,
+                       detail="; ".join(f"{c['witness']!r} -> {c['tokens']}" for c in cl))
+            for c in cl:
+                res.add(Finding("LEX1", "lexer.lex_continue", f"{cfg}: {kind} split between {c['between'][0]} and {c['between'][1]}",
+                                f"with {cfg} the lexer ends a lexeme between {c['between'][0]} and {c['between'][1]} inside a "
+                                f"{kind}: {c['witness']!r} is lexed as {c['tokens']} although the decoder accepts it as one value "
+                                "(the end-of-lexeme decision -- lex_continue() and the yield condition of lexer() -- has no "
+                                "exception for this spelling)", witness=c["witness"], where="pvl/lexer.py"))
+    res.floor("LEX1 pairings", len(an["readers"]), 5)
